@@ -108,6 +108,7 @@ type Unit struct {
 	sentinels map[string]bool
 	plainErrs []string
 	panicSnaps []*State
+	nRecovered int // exits by a recovered panic (checked as returns 901, 902, …)
 	panicSites []string
 	usesErrIs bool
 	functional bool
